@@ -527,7 +527,13 @@ def run_multi(ctx, b, items):
         if r:
             bad += 1
             if bad <= 3:
-                ctx.violation("multi-schema:" + r[0] + ":" + str(abs(hash(text)) % 10**8), r[1],
+                key = "multi-schema:" + r[0] + ":" + str(abs(hash(text)) % 10**8)
+                mo = re.search(r"NameError: name '(\w+)' is not defined", r[1])
+                if r[0] == "import-error" and mo and re.search(r"TYPE\s+\w+\s*=\s*" + mo.group(1) + r"\s*;", text) \
+                        and re.search(r"TYPE\s+" + mo.group(1) + r"\s*=\s*\w+\s*;", text):
+                    # a type renaming a type that itself renames a type of another schema is written before it
+                    key = "multi-schema:rename-of-foreign-rename-order"
+                ctx.violation(key, r[1],
                               {"schema": text, "how": f"run the scratch exp2python on the file (time bound {TOOL_TIMEOUT} s)"})
     ctx.cov["correspondence"]["multi-schema"] = {"files": len(items), "failures": bad}
 
